@@ -173,7 +173,29 @@ func (w *world) storeOp(r *xp.Req, resp *xp.Resp) {
 			resp.Err = "no such store"
 			return
 		}
-		resp.Bad, resp.Emitted = atomicVisibility(h.st, int(r.N))
+		resp.Bad, resp.Emitted = atomicVisibility(h.st, int(r.N), int(r.A))
+	case "store-atomic-bg":
+		// keeps writing batches of r.A mutations until the process is killed
+		h := w.stores[r.Name]
+		if h == nil {
+			resp.Err = "no such store"
+			return
+		}
+		m := int(r.A)
+		h.st.Mutate(atomicBatch(0, m), nil)
+		go func() {
+			for i := 1; ; i++ {
+				h.st.Mutate(atomicBatch(i, m), nil)
+			}
+		}()
+	case "store-atomic-read":
+		h := w.stores[r.Name]
+		if h == nil {
+			resp.Err = "no such store"
+			return
+		}
+		first, differ, err := atomicRead(h.st, int(r.A))
+		resp.Err, resp.Bad, resp.URL = errStr(err), differ, first
 	case "store-dump":
 		h := w.stores[r.Name]
 		if h == nil {
@@ -272,25 +294,40 @@ func runStoreOp(h *storeH, op xp.StoreOp) (obs xp.StoreObs) {
 
 // atomicVisibility: a writer batches [B:=i, A:=i] (B first) while a reader
 // reads B then A; with atomic batches A >= B always. Returns (#violations, #reads).
-func atomicVisibility(st *rocks.RocksDBStore, n int) (bad, reads int) {
+// atomicBatch is the i-th batch of m mutations: the first goes to the history
+// table, the last to the FSM-state table (the order the FSM uses), the rest to
+// the hyper table; every value is i.
+func atomicBatch(i, m int) []*storage.Mutation {
+	be := []byte(fmt.Sprintf("%016d", i))
+	ms := make([]*storage.Mutation, 0, m)
+	ms = append(ms, storage.NewMutation(storage.HistoryTable, []byte("B"), be))
+	for j := 0; j < m-2; j++ {
+		ms = append(ms, storage.NewMutation(storage.HyperTable, []byte(fmt.Sprintf("f%06d", j)), be))
+	}
+	ms = append(ms, storage.NewMutation(storage.FSMStateTable, []byte("A"), be))
+	return ms
+}
+
+func atomicVisibility(st *rocks.RocksDBStore, n, m int) (bad, reads int) {
+	if m < 2 {
+		m = 2
+	}
 	var stop int32
 	var wg sync.WaitGroup
 	wg.Add(1)
-	be := func(i int) []byte { return []byte(fmt.Sprintf("%016d", i)) }
-	st.Mutate([]*storage.Mutation{storage.NewMutation(storage.HistoryTable, []byte("B"), be(0)), storage.NewMutation(storage.HyperTable, []byte("A"), be(0))}, nil)
+	st.Mutate(atomicBatch(0, m), nil)
 	go func() {
 		defer wg.Done()
 		for i := 1; i <= n; i++ {
-			st.Mutate([]*storage.Mutation{
-				storage.NewMutation(storage.HistoryTable, []byte("B"), be(i)),
-				storage.NewMutation(storage.HyperTable, []byte("A"), be(i)),
-			}, nil)
+			st.Mutate(atomicBatch(i, m), nil)
 		}
 		atomic.StoreInt32(&stop, 1)
 	}()
 	for atomic.LoadInt32(&stop) == 0 {
+		// first-written key first, last-written key second: with an atomic batch the second
+		// read can never be older than the first
 		b, err1 := st.Get(storage.HistoryTable, []byte("B"))
-		a, err2 := st.Get(storage.HyperTable, []byte("A"))
+		a, err2 := st.Get(storage.FSMStateTable, []byte("A"))
 		if err1 != nil || err2 != nil {
 			bad++
 			continue
@@ -301,6 +338,27 @@ func atomicVisibility(st *rocks.RocksDBStore, n int) (bad, reads int) {
 		}
 	}
 	wg.Wait()
+	return
+}
+
+// atomicRead reports, after a reopen, the value of the first key of the last
+// batch and how many of the batch's other keys hold a different value.
+func atomicRead(st *rocks.RocksDBStore, m int) (first string, differ int, err error) {
+	b, err := st.Get(storage.HistoryTable, []byte("B"))
+	if err != nil {
+		return "", 0, err
+	}
+	first = string(b.Value)
+	chk := func(t storage.Table, k []byte) {
+		kv, e := st.Get(t, k)
+		if e != nil || string(kv.Value) != first {
+			differ++
+		}
+	}
+	for j := 0; j < m-2; j++ {
+		chk(storage.HyperTable, []byte(fmt.Sprintf("f%06d", j)))
+	}
+	chk(storage.FSMStateTable, []byte("A"))
 	return
 }
 
